@@ -34,9 +34,9 @@ ROOT = "rns"
 DEP_FILES = {"rns/Dep.1.0.dsdl": "@sealed\n"}
 
 # line alphabet: one symbol per branch of the flush logic
-SYMS_FULL = ["F", "F#", "K", "C", "E", "P", "K#", "Kx", "A", "A#", "R", "D"]
-SYMS_SMALL = ["F", "F#", "K", "C", "E"]
-ATTR_SYMS = {"F", "F#", "K", "K#", "Kx", "P", "D"}
+SYMS_FULL = ["F", "F#", "K", "C", "E", "P", "K#", "Kx", "A", "A#", "R", "D", "Kf"]
+SYMS_SMALL = ["F", "F#", "K", "C", "E", "Kx"]
+ATTR_SYMS = {"F", "F#", "K", "K#", "Kx", "P", "D", "Kf"}
 
 VARIANTS = [
     # (name, eol, final_eol, blanks, wsonly)
@@ -53,11 +53,16 @@ VARIANT_BY_NAME = {v[0]: v for v in VARIANTS}
 
 
 def body_lines(syms: list[str], prefix: str) -> list[dict] | None:
-    """Abstract lines of a body history; None if the history is not a valid program (Kx without earlier constant)."""
+    """Abstract lines of a body history; None if the history is not a valid program (Kx without earlier constant).
+    The response section of a service (prefix 'r') deliberately REUSES the attribute names of the request section - the two
+    sections are separate scopes - but with different constant values."""
     out = []
     last_const = None
+    voff = 100 if prefix == "r" else 0
+    tag = prefix
+    prefix = ""
     for i, s in enumerate(syms):
-        c = "c%s%d" % (prefix, i) if i % 2 == 0 else " c%s%d" % (prefix, i)  # '#c' and '# c' spellings both occur
+        c = "c%s%d" % (tag, i) if i % 2 == 0 else " c%s%d" % (tag, i)  # '#c' and '# c' spellings both occur
         if s in ("F", "F#"):
             out.append({"stmt": ["field", "saturated uint8", "%sf%d" % (prefix, i)], "comment": c if s == "F#" else None, "src": ["uint8", "%sf%d" % (prefix, i)]})
         elif s == "D":
@@ -66,8 +71,11 @@ def body_lines(syms: list[str], prefix: str) -> list[dict] | None:
             out.append({"stmt": ["pad", "void3"], "comment": None, "src": ["void3"]})
         elif s in ("K", "K#"):
             name = "%sK%d" % (prefix.upper(), i)
-            out.append({"stmt": ["const", "saturated uint8", name, i + 1], "comment": c if s == "K#" else None, "src": ["uint8", name, "=", str(i + 1)]})
-            last_const = (name, i + 1)
+            out.append({"stmt": ["const", "saturated uint8", name, i + 1 + voff], "comment": c if s == "K#" else None, "src": ["uint8", name, "=", str(i + 1 + voff)]})
+            last_const = (name, i + 1 + voff)
+        elif s == "Kf":
+            name = "%sF%d" % (prefix.upper(), i)
+            out.append({"stmt": ["const", "saturated float64", name, {"q": [i + 1 + voff, 3] if (i + 1 + voff) % 3 else [10 * (i + 1 + voff) + 1, 30]}], "comment": None, "src": ["float64", name, "=", "%d" % (i + 1 + voff if (i + 1 + voff) % 3 else 10 * (i + 1 + voff) + 1), "/", "3" if (i + 1 + voff) % 3 else "30"]})
         elif s == "Kx":
             if last_const is None:
                 return None
@@ -163,10 +171,7 @@ def canonical_text(p: dict) -> str:
         if s["union"]:
             out.append("@union")
         for a in s["fields"] + s["constants"]:
-            if "value" in a:
-                st = "%s %s = %s" % (a["type"], a["name"], a["value"])
-            else:
-                st = ("%s %s" % (a["type"], a["name"])).strip()
+            st = a["str"]  # pydsdl's own normalized DSDL form of the attribute (str(attribute))
             docl = a["doc"].split("\n") if a["doc"] else []
             if docl:
                 st += " # " + docl[0]
